@@ -150,9 +150,13 @@ type PFault struct {
 	Commit   string `json:"commit"`
 	Provider string `json:"provider"`
 	Reporter string `json:"reporter"`
-	Confirms string `json:"confirms"`
+	Confirms []PVote `json:"confirms"`
 	Status   int64  `json:"status"`
 	Penalty  int64  `json:"penalty"`
+}
+type PVote struct {
+	S string `json:"s"` // "+" confirms the fault, "-" confirms the recovery
+	W string `json:"w"` // voter ("" for the reporter's implicit first "+")
 }
 type PFaultIdx struct {
 	Provider string `json:"provider"`
@@ -415,7 +419,7 @@ func (c *Chain) Project() State {
 				s.Junk = append(s.Junk, "faultId:"+string(it.Key()))
 				continue
 			}
-			s.Faults = append(s.Faults, PFault{Id: f.FaultId, Order: int64(f.OrderId), Data: c.Name(f.DataId), Shard: int64(f.ShardId), Commit: c.NameCommit(f.CommitId), Provider: c.Name(f.Provider), Reporter: c.Name(f.Reporter), Confirms: c.renameAll(f.Confirms), Status: int64(f.Status), Penalty: int64(f.Penalty)})
+			s.Faults = append(s.Faults, PFault{Id: "F_" + c.Name(f.Provider) + "_" + fmt.Sprint(f.ShardId), Order: int64(f.OrderId), Data: c.Name(f.DataId), Shard: int64(f.ShardId), Commit: c.NameCommit(f.CommitId), Provider: c.Name(f.Provider), Reporter: c.Name(f.Reporter), Confirms: c.votes(f.Confirms), Status: int64(f.Status), Penalty: int64(f.Penalty)})
 		}
 		it.Close()
 		st2 := prefix.NewStore(ctx.KVStore(nk), nodetypes.KeyPrefix(nodetypes.FaultKeyPrefix))
@@ -426,7 +430,7 @@ func (c *Chain) Project() State {
 				s.Junk = append(s.Junk, "fault:"+c.renameAll(fmt.Sprintf("%q", string(k))))
 				continue
 			}
-			s.FaultIdx = append(s.FaultIdx, PFaultIdx{Provider: c.Name(string(k[:len(k)-9])), Shard: int64(u64(k[len(k)-9 : len(k)-1])), Id: string(it2.Value())})
+			s.FaultIdx = append(s.FaultIdx, PFaultIdx{Provider: c.Name(string(k[:len(k)-9])), Shard: int64(u64(k[len(k)-9 : len(k)-1])), Id: "F_" + c.Name(string(k[:len(k)-9])) + "_" + fmt.Sprint(u64(k[len(k)-9:len(k)-1]))})
 		}
 		it2.Close()
 		st3 := prefix.NewStore(ctx.KVStore(nk), nodetypes.KeyPrefix(nodetypes.FishingRewardKey))
@@ -492,4 +496,15 @@ func dataRank(d string) int {
 		return n
 	}
 	return 1 << 30
+}
+
+func (c *Chain) votes(confirms string) []PVote {
+	out := []PVote{}
+	for _, p := range strings.Split(confirms, "|") {
+		if p == "" {
+			continue
+		}
+		out = append(out, PVote{S: p[:1], W: c.Name(p[1:])})
+	}
+	return out
 }
